@@ -48,7 +48,7 @@ var neverExport = []string{
 	"github.com/decred/dcrd/dcrec/secp256k1", "github.com/aead/siphash", "net", "bufio",
 	"github.com/davecgh/go-spew", "github.com/syndtr/goleveldb", "path", "context", "iter",
 	"github.com/decred/dcrd/crypto/blake256", "compress/", "text/", "regexp", "testing",
-	"weak", "unique", "maps", "github.com/minio/sha256-simd",
+	"weak", "unique", "github.com/minio/sha256-simd",
 }
 
 // exceptions to neverExport (bodies that are plain Go and useful to execute).
